@@ -173,7 +173,7 @@ class MatchesSetwise:
         # only matcher that accepts a later value, so when no free matcher
         # accepts a value, earlier pairings are rearranged along an augmenting
         # path (searched breadth first: no recursion, any number of values).
-        matchers = list(dict.fromkeys(self.matchers))
+        matchers = list(self.matchers)
         values = list(observed)
         # Every matcher is asked about every value exactly once, in order.
         accepts = [
